@@ -63,3 +63,86 @@ Theorem C06_single_thread_savers_closed_on_error :
         spy_log (get (fst res0) t) = firstn (ppos (get (fst res0) t)) (whole_of g comb t)).
 Proof. exact po_spies_closed_on_error. Qed.
 Print Assumptions C06_single_thread_savers_closed_on_error.
+
+(* ======================================================================================================
+   Threaded-mailbox processor: theorems over the network LTS Model/MailboxFail.v
+   (one step = one lock region of strax/mailbox.py + the lock-free code up to the next yield point;
+   a schedule is any list of thread ids; "for all schedules" = "for all sched : list nat").
+   Vocabulary: Spec/MailboxFailSpec.v; the two families of networks: Model/C06Nets.v (compared with the wiring
+   of the real ThreadedMailboxProcessor on every run of the check).
+   ====================================================================================================== *)
+From SV Require Import Base.Prelude Model.Mailbox Model.MailboxFail Model.C06Run Model.C06Nets
+  Spec.MailboxFailSpec Proof.MailboxFailExamples.
+Local Open Scope nat_scope.
+
+(* ---------- the three defects found in the exception plumbing (fx = false: the code before the repairs
+   F1-F3, design_notes/C06.md).  Each witness schedule is replayed on the real processor by the check. ---------- *)
+
+(* F1: closing ThreadedMailboxProcessor.iter() directly: TypeError at the caller, the pipeline threads stay blocked *)
+Theorem C06_pinned_F1_direct_close_hangs :
+  exists sched st,
+    nrun (chain_net f1_spec false None (Some (0, true, cexc))) (chain_init f1_spec false None (Some (0, true, cexc))) sched = Some st /\
+    deadlocked (chain_net f1_spec false None (Some (0, true, cexc))) st /\
+    main_outcome st (chain_main f1_spec) = Some (OErr (EOrig C_TYPEERR)).
+Proof. exists f1_sched. exact f1_direct_close_hangs. Qed.
+Print Assumptions C06_pinned_F1_direct_close_hangs.
+
+(* F2: a saver of a side output fails: the caller gets StopIteration (RuntimeError) instead of the exception *)
+Theorem C06_pinned_F2_wrong_exception :
+  exists sched st,
+    nrun (fan_net f2_spec false (Some (3, 0, boom)) None) (fan_init f2_spec false (Some (3, 0, boom)) None) sched = Some st /\
+    quiescent (fan_net f2_spec false (Some (3, 0, boom)) None) st /\ all_terminal st = true /\
+    main_outcome st (fan_main f2_spec) = Some (OErr (EOrig C_STOPITER)).
+Proof. exists f2_sched. exact f2_wrong_exception. Qed.
+Print Assumptions C06_pinned_F2_wrong_exception.
+
+(* F3: a saver of a side output listed first in `provides` fails at the last chunk: the pipeline hangs *)
+Theorem C06_pinned_F3_hang :
+  exists sched st,
+    nrun (fan_net f3_spec false (Some (3, 0, boom)) None) (fan_init f3_spec false (Some (3, 0, boom)) None) sched = Some st /\
+    deadlocked (fan_net f3_spec false (Some (3, 0, boom)) None) st /\
+    main_outcome st (fan_main f3_spec) = None.
+Proof. exists f3_sched. exact f3_hang. Qed.
+Print Assumptions C06_pinned_F3_hang.
+
+(* ---------- full statements (for the repaired code, fx = true) ---------- *)
+
+(* chains of any length, any capacities >= 1, lazy or eager, any number of savers per mailbox: a failure at any
+   position of any thread (plugin / source at chunk fp or at its end fp = N; saver at chunk fp) reaches the
+   caller as the original exception on every schedule; nothing hangs; every saver is closed and marked *)
+Definition C06_full_failure_reaches_caller_chain : Prop :=
+  forall (sp : chain_spec) (ft fp c : nat),
+    valid_chain sp -> ft < chain_main sp -> fp <= ch_N sp ->
+    failure_reaches_caller (chain_net sp true (Some (ft, fp, c)) None) (chain_init sp true (Some (ft, fp, c)) None)
+                           (chain_main sp) (ch_N sp) c.
+
+(* one-level fan-out: source -> multi-output plugin -> divide_outputs -> target x and side output y (saved or
+   discarded), either order of `provides`; the failing thread is the source (0), the plugin (1) or a saver *)
+Definition C06_full_failure_reaches_caller_fanout : Prop :=
+  forall (sp : fan_spec) (ft fp c : nat),
+    valid_fan sp -> (ft < 2 \/ (3 <= ft < 3 + fn_savx sp + fn_savy sp)) -> fp <= fn_N sp ->
+    failure_reaches_caller (fan_net sp true (Some (ft, fp, c)) None) (fan_init sp true (Some (ft, fp, c)) None)
+                           (fan_main sp) (fn_N sp) c.
+
+(* the consumer raises c while handling chunk k *)
+Definition C06_full_consumer_exception_chain : Prop :=
+  forall (sp : chain_spec) (k c : nat),
+    valid_chain sp -> k < ch_N sp ->
+    failure_reaches_caller (chain_net sp true None (Some (k, false, c))) (chain_init sp true None (Some (k, false, c)))
+                           (chain_main sp) (ch_N sp) c.
+
+(* the consumer closes the iterator after chunk k: all threads stop; the caller sees OutsideException through
+   Context.get_iter, a plain return of close() (GeneratorExit re-raised) on the processor's own iterator *)
+Definition C06_full_consumer_close_stops_all : Prop :=
+  forall (sp : chain_spec) (k c : nat),
+    valid_chain sp -> k < ch_N sp ->
+    failure_reaches_caller (chain_net sp true None (Some (k, true, c))) (chain_init sp true None (Some (k, true, c)))
+                           (chain_main sp) (ch_N sp) (if ch_relay sp then C_OUTSIDE else C_GENEXIT).
+
+(* without failures every maximal schedule ends with everything delivered and saved; chains and fan-outs have no
+   chunk lag (every stage is 1:1), so any capacity >= 1 is enough *)
+Definition C06_full_no_failure_terminates : Prop :=
+  (forall sp : chain_spec, valid_chain sp ->
+     completes (chain_net sp true None None) (chain_init sp true None None) (chain_main sp) (ch_N sp)) /\
+  (forall sp : fan_spec, valid_fan sp ->
+     completes (fan_net sp true None None) (fan_init sp true None None) (fan_main sp) (fn_N sp)).
